@@ -132,7 +132,8 @@ mod v_storage_assembler {
         kani::cover!(r.is_err(), "add refused");
     }
 
-    // @harness props=C15 cfg=KS,KS3 tcfg=KS8 tier=q to=900 mem=6 unwind=KS:6,KS3:5,KS8:10 opts=nomem covers=2 funcs=Assembler::add bounds=direct_INV_pre-state;_sizes<=16;_offset,size<=40
+    // (MAX = 8 removed from the thorough tier for this harness: no answer within 30 minutes; measured)
+    // @harness props=C15 cfg=KS,KS3 tier=q to=900 mem=6 unwind=KS:6,KS3:5 opts=nomem covers=2 funcs=Assembler::add bounds=direct_INV_pre-state;_sizes<=16;_offset,size<=40
     #[kani::proof]
     pub(crate) fn asm_add_err_iff_overfull() {
         let mut a = any_asm();
@@ -166,7 +167,8 @@ mod v_storage_assembler {
         kani::cover!(n == 0 && used(&a) > 0, "front is a hole");
     }
 
-    // @harness props=C15 cfg=KS,KS3 tcfg=KS8 tier=q to=900 mem=6 unwind=KS:6,KS3:5,KS8:10 opts=nomem covers=3 funcs=Assembler::add_then_remove_front bounds=direct_INV_pre-state;_sizes<=16;_offset,size<=40
+    // (MAX = 8 removed from the thorough tier for this harness: no answer within 30 minutes; measured)
+    // @harness props=C15 cfg=KS,KS3 tier=q to=900 mem=6 unwind=KS:6,KS3:5 opts=nomem covers=3 funcs=Assembler::add_then_remove_front bounds=direct_INV_pre-state;_sizes<=16;_offset,size<=40
     #[kani::proof]
     pub(crate) fn asm_atrf() {
         let mut a = any_asm();
